@@ -27,6 +27,16 @@ def handle (op : String) (args : List String) : Option String :=
     let n ← n.toNat?
     let es ← parseEdges edges
     pure (" ".intercalate ((topoSort n es).map toString))
+  | "closure", [n, edges] => do
+    -- the hypotheses of topoSort_respects_deps for this graph + the closed relation itself
+    let n ← n.toNat?
+    let es ← parseEdges edges
+    let t := closedTable n es
+    let d := ofTable t
+    let pairs := (List.range n).flatMap fun a => (List.range n).filterMap fun b =>
+      if d a b then some (toString a ++ "-" ++ toString b) else none
+    pure ("cycle=" ++ boolStr (hasCycle n d) ++ " trans=" ++ boolStr (transOn (List.range n) d) ++ " " ++
+      (if pairs.isEmpty then "." else ",".intercalate pairs))
   | _, _ => none
 
 end Driver.C09
